@@ -65,6 +65,10 @@ CHECKS["C07"] = ("E3-sysrun", "fault_enumeration",
   "Exhaustive enumeration of cache states: for each (program, request shape) the universe U = files of a complete run + the partial files of each segment job run alone; all 2^n subsets of U (n <= 11 quick, <= 16 thorough, Gray-code prefix beyond) laid out as the initial cache, plus one torn .tmp leftover per file; the request is served on each by the real tier1+tier2 and its stream, and every file it leaves behind (decoded), compared with the empty-cache run.",
   "Goroutine timing inside a run is not controlled; files do not vanish during a request; equivalence is per file name, not per set of names.",
   "exhaustive enumeration of crash/eviction states (file subsets + torn writes) on the real implementation, differential against the clean run", "3/C07")
+CHECKS["C05"] = ("E2-schedx", "model_checking",
+  "Explicit-state model checking of the real scheduler: BFS over every delivery order of the scheduler's own messages and job bodies, on the real Scheduler/Stages/WorkerPool/Walker built by BuildParallelProcessor, with real tier2 jobs and real merges; 28 grid configurations (1-2 store stages x 2-3 segments x 1-2 workers x empty/complete cache; thorough: 3 stages x 4 segments, 3 workers), the configurations whose stores all start above the hand-off, and every cache state of two C07 universes (256 initial caches); safety in every state and on every transition, unique terminal outcome compared with the sequential reference, deadlock and livelock (backward reachability) detection.",
+  "loop.EventLoop.Run is bypassed; asynchronous squasher writes are drained after each event; the partial-vs-full load race is decided by a store wrapper (full wins; thorough also partial wins); more than 2 identical pending wake-up messages are coalesced (cross-checked against the exact search with --cap 0).",
+  "explicit-state BFS over the implementation's own transition function (stateful model checking on the real code, successors by replay)", "2.4 E2, 3/C05")
 PENDING = {}
 def main():
     checks = []
@@ -95,6 +99,7 @@ def main():
         },
         "engines": [
             {"name": "E4-histx", "path": "harness/histx", "serves_properties": ["C11", "C03"], "kind_free_text": "explicit-state BFS over store histories, successors by replay on a fresh real store"},
+            {"name": "E2-schedx", "path": "harness/schedx", "serves_properties": ["C05", "C01", "C07"], "kind_free_text": "explicit-state explorer over the real Scheduler.Update: controlled delivery order, real tier2 jobs (memoised), real merges, state key from hook fingerprints"},
             {"name": "E3-sysrun", "path": "harness/sysrun", "serves_properties": ["C01", "C03", "C04", "C07", "C15", "C16"], "kind_free_text": "whole-system runner: real tier1 + in-process real tier2 on scripted WASM modules, deterministic block source, prepared cache directory"},
             {"name": "E1-enum", "path": "harness/core", "serves_properties": [p for p in ALL if p in CHECKS and CHECKS[p][0]=="E1-enum"], "kind_free_text": "bounded-exhaustive enumerator over the real functions, 16-way parallel"},
         ],
